@@ -64,3 +64,90 @@ pub fn spec_int_content(v: i64) -> ([u8; 8], usize) {
     }
     (be, 8 - skip)
 }
+
+// ------------------------------------------------------------------------------------
+// OID text reference (C08)
+
+pub const MAX_ARCS: usize = 6;
+
+/// Reference tokenizer for dotted-decimal OID text.
+/// Returns (arcs, n_arcs, strict) or None if the text denotes no OID.
+/// `strict` is false when an arc carries a '+' sign or redundant leading zeros: such text still denotes a
+/// unique OID, and a lenient parser may accept it (but only as THAT OID).
+pub fn spec_parse_oid(s: &[u8]) -> Option<([u32; MAX_ARCS], usize, bool)> {
+    let mut arcs = [0u32; MAX_ARCS];
+    let mut n = 0usize;
+    let mut strict = true;
+    let mut i = 0usize;
+    loop {
+        // one arc
+        if n >= MAX_ARCS {
+            return None; // outside the reference's capacity: callers keep templates within MAX_ARCS
+        }
+        if i < s.len() && s[i] == b'+' {
+            strict = false;
+            i += 1;
+        }
+        let start = i;
+        let mut v: u64 = 0;
+        while i < s.len() && s[i] != b'.' {
+            let c = s[i];
+            if c < b'0' || c > b'9' {
+                return None;
+            }
+            v = v * 10 + (c - b'0') as u64;
+            if v > u32::MAX as u64 {
+                return None;
+            }
+            i += 1;
+        }
+        if i == start {
+            return None; // empty arc
+        }
+        if i - start > 1 && s[start] == b'0' {
+            strict = false;
+        }
+        arcs[n] = v as u32;
+        n += 1;
+        if i == s.len() {
+            break;
+        }
+        i += 1; // skip '.'
+        if i == s.len() {
+            return None; // trailing dot: empty last arc
+        }
+    }
+    if n < 2 || arcs[0] > 2 || arcs[1] > 39 {
+        return None;
+    }
+    Some((arcs, n, strict))
+}
+
+/// Canonical X.690 8.19 content octets of the arcs; returns (buffer, length). Capacity 1 + 5*(MAX_ARCS-2).
+pub fn spec_encode_arcs(arcs: &[u32; MAX_ARCS], n: usize) -> ([u8; 24], usize) {
+    let mut out = [0u8; 24];
+    out[0] = (arcs[0] * 40 + arcs[1]) as u8;
+    let mut k = 1usize;
+    let mut a = 2usize;
+    while a < n {
+        let v = arcs[a];
+        let mut groups = 1usize;
+        let mut t = v >> 7;
+        while t > 0 {
+            groups += 1;
+            t >>= 7;
+        }
+        let mut g = groups;
+        while g > 0 {
+            g -= 1;
+            let mut b = ((v >> (7 * g)) & 0x7f) as u8;
+            if g > 0 {
+                b |= 0x80;
+            }
+            out[k] = b;
+            k += 1;
+        }
+        a += 1;
+    }
+    (out, k)
+}
